@@ -286,6 +286,10 @@ func cmdCheck(args []string) int {
 	rep.engineErrs = engineErrs
 	rep.results = results
 	rep.classify(obls, covers, canaries, res, *verbose)
+	if *only == "" {
+		bres, _ := eng.runBounded(*prop)
+		rep.bounded(bres)
+	}
 	rep.wall = time.Since(start).Seconds()
 	if !*noEvidence {
 		rep.writeEvidence()
